@@ -145,6 +145,12 @@ def realtty_stream(run):
     rs = []
     for k, (speed, nl) in enumerate(plan):
         r = realtty_round(binp, os.path.join(run.rundir, "realtty%d" % k), speed, nl, run.rng)
+        if r.get("problem"):
+            # real time, a real process: a round that went wrong is run once more and reported only if it goes wrong again
+            r2 = realtty_round(binp, os.path.join(run.rundir, "realtty%d_again" % k), speed, nl, run.rng)
+            if not r2.get("problem"):
+                run.cov.setdefault("flagged_once_but_not_reproduced", []).append({"stream": "realtty", "cases": [{"terminal": speed, "first_run": r["problem"]}]})
+            r = r2
         rs.append(r)
         if r.get("problem") and not r["problem"].startswith("harness"):
             run.violation("realtty-" + speed, "the real program's terminal did not show a prefix of what the shell sent, byte for byte (numbered lines over real TLS, "
